@@ -403,6 +403,10 @@ def parse_fslog(path):
         elif p[0] == b'close' and len(p) == 2: ops.append(('close', p[1].decode()))
         elif p[0] == b'rename' and len(p) == 3: ops.append(('rename', p[1].decode(), p[2].decode()))
         elif p[0] == b'unlink' and len(p) == 2: ops.append(('unlink', p[1].decode()))
+        elif p[0] == b'openfail' and len(p) == 2: ops.append(('openfail', p[1].decode()))
+        elif p[0] == b'writefail' and len(p) == 3: ops.append(('writefail', p[1].decode(), int(p[2])))
+        elif p[0] == b'closefail' and len(p) == 2: ops.append(('closefail', p[1].decode()))
+        elif p[0] == b'renamefail' and len(p) == 3: ops.append(('renamefail', p[1].decode(), p[2].decode()))
     return ops
 
 def c18_spec(rng, fmt, kind, size):
@@ -447,10 +451,11 @@ def extra_C18(rng, tier, st, cov):
                 s = [e for e in spec if e[0] not in ('ops', 'idx')] + ([['idx', idx]] if idx else []) + ([['keepfile', final.encode()]] if keep else []) + [['ops', ops]]
                 return dump([1, t, 'run', s, []])
             base_env = dict(os.environ); base_env['VERIF_TMP'] = work
-            def penv(logf, kill=None, partial=None):
+            def penv(logf, kill=None, partial=None, fail=None):
                 e = dict(base_env); e.update({'LD_PRELOAD': so, 'VERIF_FS_MATCH': final, 'VERIF_FS_LOG': logf})
                 if kill: e['VERIF_FS_KILL_AT'] = str(kill)
                 if partial: e['VERIF_FS_PARTIAL'] = str(partial)
+                if fail: e['VERIF_FS_FAIL_AT'] = str(fail)
                 return e
             def clean():
                 for f in (final, final + '.tmp'):
@@ -533,6 +538,88 @@ def extra_C18(rng, tier, st, cov):
                     t2 = [x for x in (res[1] if res else []) if isinstance(x, list) and x[0] == 'text']
                     if rc2 != 0 or not t2 or t2[0][1] != ref_final_text:
                         out.append(viol('killed at %s: resuming from the file does not reproduce the final checkpoint of the uninterrupted run' % where, [], replay))
+            # fault sequences: the f-th file operation fails and the process goes on; then kills at the operations that follow
+            tmpname = final + '.tmp'
+            def expected_after(done):
+                """the text the last successful rename put under the final name (None: no rename yet): invocation j writes texts[j-1]"""
+                j = 0; exp = None
+                for o in done:
+                    if o[0] in ('open', 'openfail') and o[1] == tmpname: j += 1
+                    elif o[0] == 'rename' and o[2] == final and 1 <= j <= len(texts): exp = texts[j - 1]
+                return exp
+            first_inv_end = next((i + 1 for i, o in enumerate(ops) if o[0] == 'rename'), nops)
+            cand = {}
+            for i, o in enumerate(ops):
+                cand.setdefault(o[0], []).append(i + 1)
+            fpos = []
+            for kind_ in ('open', 'write', 'close', 'rename'):
+                c_ = cand.get(kind_, [])
+                if not c_: continue
+                fpos += c_ if tier == 'thorough' else sorted(set([c_[0], rng.choice(c_)] + ([c_[-1]] if kind_ == 'write' else [])))
+            for f in sorted(set(fpos)):
+                clean(); lf = os.path.join(work, 'flog')
+                if os.path.exists(lf): os.remove(lf)
+                what = 'the %s that is operation %d of %d fails' % (ops[f - 1][0], f, nops)
+                rc, resf = run_one(exe, case([['run', calls], ['text']]), penv(lf, fail=f))
+                stats['faults'] = stats.get('faults', 0) + 1
+                donef = parse_fslog(lf)
+                replay = {'spec': case([['run', calls], ['text']]), 'fail_at': f, 'file': final}
+                tf = [x for x in (resf[1] if resf else []) if isinstance(x, list) and x[0] == 'text']
+                if rc != 0 or not tf or tf[0][1] != ref_final_text:
+                    out.append(viol('%s: the run does not finish with the result of the undisturbed run (exit %s)' % (what, rc), [], replay)); continue
+                content = open(final, 'rb').read() if os.path.exists(final) else None
+                if content != expected_after(donef):
+                    out.append(viol('%s: afterwards the checkpoint file is not the text of the last invocation that completed' % what, [], replay)); continue
+                # the operations of the disturbed invocation against the model's invocation_ops
+                if ml:
+                    inv = []; started = False
+                    idx_f = next((i for i, o in enumerate(donef) if o[0].endswith('fail')), None)
+                    # the invocation containing the failure: from the preceding open (or the failing open) to the next open
+                    a = idx_f
+                    while a is not None and a > 0 and donef[a][0] not in ('open', 'openfail'): a -= 1
+                    b = idx_f + 1 if idx_f is not None else 0
+                    while idx_f is not None and b < len(donef) and donef[b][0] not in ('open', 'openfail'): b += 1
+                    seg = donef[a:b] if idx_f is not None else []
+                    how = 'openfails' if seg and seg[0][0] == 'openfail' else 'incomplete'
+                    real = []
+                    for o in seg:
+                        if o[0] == 'open': real.append(['open', o[1].encode()])
+                        elif o[0] == 'write': real.append(['write', o[1].encode(), len(o[2])])
+                        elif o[0] in ('close', 'closefail'): real.append(['close', o[1].encode()])
+                        elif o[0] == 'rename': real.append(['rename', o[1].encode(), o[2].encode()])
+                        elif o[0] == 'unlink': real.append(['unlink', o[1].encode()])
+                    lens = [o[2] for o in real if o[0] == 'write']
+                    rcm, mo = run_one(ml, dump([1, 'd', 'fsops', [final.encode(), lens, how], []]))
+                    stats['skeleton_checks'] += 1
+                    if mo is None or mo[1] != real:
+                        out.append(viol('%s: the system calls of that invocation differ from the model (%s: no operation on the final name)' % (what, how), [],
+                                        dict(replay, real=dump(real)[:600], model=dump(mo[1])[:600] if mo else None), tie=True))
+                        continue
+                later = list(range(f + 1, len([o for o in donef]) + 1))
+                ks2 = later if (tier == 'thorough' and len(later) <= 12) else sorted(set(rng.sample(later, min(len(later), 8 if tier == 'thorough' else 4)) + later[:2]))
+                for k in ks2:
+                    clean(); lk = os.path.join(work, 'klog')
+                    if os.path.exists(lk): os.remove(lk)
+                    rc, _ = run_one(exe, case([['run', calls], ['text']]), penv(lk, k, None, fail=f))
+                    stats['kills_after_fault'] = stats.get('kills_after_fault', 0) + 1
+                    done = parse_fslog(lk)
+                    content = open(final, 'rb').read() if os.path.exists(final) else None
+                    where = '%s, then killed at operation %d' % (what, k)
+                    replay = {'spec': case([['run', calls], ['text']]), 'fail_at': f, 'kill_at': k, 'file': final}
+                    if rc != -9:
+                        out.append(viol('process was not killed: %s (exit %s)' % (where, rc), [], replay)); continue
+                    exp = expected_after(done)
+                    if content != exp:
+                        desc = 'absent' if content is None else 'empty' if content == b'' else '%d bytes, a strict prefix of a checkpoint' % len(content) if any(x and x.startswith(content) for x in texts) else '%d bytes' % len(content)
+                        out.append(viol('%s: the checkpoint file is %s - not the complete checkpoint of the last invocation that completed' % (where, desc), [], replay))
+                        continue
+                    if content is not None:
+                        nres = texts.index(content) + 1
+                        rc2, res = run_one(exe, case([['load', final.encode()], ['run', calls[nres:]], ['text']], keep=False, idx=sum(calls[:nres])), base_env)
+                        stats['resumes'] += 1
+                        t2 = [x for x in (res[1] if res else []) if isinstance(x, list) and x[0] == 'text']
+                        if rc2 != 0 or not t2 or t2[0][1] != ref_final_text:
+                            out.append(viol('%s: resuming from the file does not reproduce the final checkpoint of the uninterrupted run' % where, [], replay))
     finally:
         shutil.rmtree(work, ignore_errors=True)
     cov.setdefault('extra', {})['c18'] = {k: (v if not isinstance(v, list) else {'min': min(v) if v else 0, 'max': max(v) if v else 0, 'n': len(v)}) for k, v in stats.items()}
